@@ -18,6 +18,13 @@ use varpulis_core::ast::Stmt;
 use varpulis_runtime::engine::Engine;
 use vh::*;
 
+/// Oracle self-test switch (`--perturb <name>`, never set by the driver): deliberately wrong
+/// expectations used to confirm that the monitor fires. Run with `--verif-dir <scratch>`.
+static PERTURB: std::sync::OnceLock<String> = std::sync::OnceLock::new();
+fn perturb(name: &str) -> bool {
+    PERTURB.get().map(|p| p == name).unwrap_or(false)
+}
+
 // ---------------------------------------------------------------------------------------------
 // value classes (finite enumeration used in signatures)
 // ---------------------------------------------------------------------------------------------
@@ -83,7 +90,7 @@ const HOSTILE: &[&str] = &[
     "0", "5", "1883", "9223372036854775807", "007", "00", "0123", "+5", "-5", "-0", "99999999999999999999", "1.5", "0.25", "10.0", "1.50",
     "01.5", "1.0e3", "1e5", "1E5", "1.5e3", "2e-3", "1.", ".5", "-1.5", "+2.5", "inf", "nan", "NaN", "infinity", "Infinity", "-inf", "+inf", "-nan",
     // quotes / backslashes
-    "say \"hi\"", "\"", "a\"b", "\"quoted\"", "x\") stream Evil = Tick", "back\\slash", "C:\\dir\\file", "\\n", "a\\\\b", "tail\\", "\\", "a\\\"b",
+    "say \"hi\"", "\"", "a\"b", "\"quoted\"", "x\") stream Evil = Tick", "a\") # ", "a\")\n# ", "back\\slash", "C:\\dir\\file", "\\n", "a\\\\b", "tail\\", "\\", "a\\\"b",
     // newlines / whitespace / empty
     "", " ", " padded ", "two\nlines", "cr\r\nlf", "\ttab",
     // unicode
@@ -306,8 +313,10 @@ impl Finding {
             Finding::LoadError(_) => "load-error",
             Finding::ConnectorMissing(_) => "connector-not-registered",
             Finding::TypeAltered(_) => "type-altered",
-            Finding::ValueAltered(_, _, Some(_)) => "value-altered",
-            Finding::ValueAltered(_, _, None) => "param-missing",
+            // observed None = the parameter is absent from the loaded connector; both are
+            // "the stored value is not carried" (folded so that the kind does not depend on the
+            // HashMap iteration order of the parameters after a truncating value)
+            Finding::ValueAltered(_, _, _) => "value-altered",
             Finding::ExtraParam(_, _) => "extra-param",
         }
     }
@@ -337,7 +346,10 @@ fn check(src: &Src, conns: &[Conn]) -> Checked {
     };
     // (2) statements = declarations of injected connectors ++ original statements
     let injected: Vec<&Conn> = src.missing.iter().filter_map(|n| conns.iter().find(|c| &c.name == n)).collect();
-    let base_js = stmts_json(&base);
+    let mut base_js = stmts_json(&base);
+    if perturb("baseline-drops-last-statement") {
+        base_js.pop();
+    }
     let got_js = stmts_json(&prog);
     let mut lead = 0usize;
     let mut declared: BTreeSet<String> = BTreeSet::new();
@@ -376,7 +388,7 @@ fn check(src: &Src, conns: &[Conn]) -> Checked {
                 continue;
             }
         };
-        if o.ty != c.ty {
+        if o.ty != c.ty || perturb("type-never-matches") {
             findings.push(Finding::TypeAltered(c.name.clone()));
         }
         let mut expected_props: BTreeSet<&str> = BTreeSet::new();
@@ -534,6 +546,9 @@ fn main() {
     let args = Args::parse();
     install_quiet_panic_hook();
     watchdog("C39", args.pick(600, 3600));
+    if let Some(p) = args.opt("--perturb") {
+        let _ = PERTURB.set(p);
+    }
     let mut rep = Report::new("C39", "exploration", &args);
     rep.rule = "connectors (types mqtt/kafka/http/nats/console, required key + 1-3 further identifier keys; a small lane adds one non-identifier key) that pass validate_connector, with 1-2 parameter values drawn from a hostile pool/grammar (numeric-looking, leading zeros, signs, exponents, inf/nan, quotes, backslashes, newlines, unicode, empty, padded, literal look-alikes); injected into generated sources (event decl / const / inline declaration of the other connector / .from with and without params / where, window+aggregate, emit / .to) that reference 1-2 stored connectors. Non-trivial: a case whose injected connector has >=1 value of a class other than `plain`; distinct by (source, connectors).".into();
     rep.assume("the original source's own AST is the baseline for 'the rest of the pipeline' (equivalent to a hand-written declaration, and defined also for values no declaration can spell)");
@@ -545,7 +560,7 @@ fn main() {
         let _ = std::env::set_current_dir(d.path());
     }
     let threads = ncpu();
-    let n_cases = args.pick(4000usize, 200_000usize) / threads + 1;
+    let n_cases = args.pick(1600usize, 100_000usize) / threads + 1;
     let parts = parallel(threads, args.seed, move |ti, mut rng| {
         let mut out = Partial::default();
         let rt = vh::eng::rt();
